@@ -1,4 +1,4 @@
-package main
+package gutil
 
 // Input generation only: McIlroy's adversary ("A Killer Adversary for Quicksort", 1999)
 // played against a comparison-driven transcription of the classic Bentley-McIlroy
@@ -97,9 +97,9 @@ func (a *adversary) qsort(lo, hi int) {
 	}
 }
 
-// killerInput returns a slice of length n on which a median-of-three/ninther quicksort
+// QuicksortKiller returns a slice of length n on which a median-of-three/ninther quicksort
 // makes maximally unbalanced splits.
-func killerInput(n int) []int {
+func QuicksortKiller(n int) []int {
 	a := &adversary{val: make([]int, n), gas: n, item: make([]int, n)}
 	for i := range a.val {
 		a.val[i] = a.gas
